@@ -96,6 +96,44 @@ fn check_eval(spec: &TlSpec, rt: &RefTl, tl: &PTimeline, start: Option<&P>, t: f
     got
 }
 
+
+/// Non-dyadic end-of-timeline companion: cycles and delays that are not exactly representable, finite
+/// repeat counts; evaluated at exactly the reported total duration and at the f32 values around it. At or
+/// after the total the terminal value must be shown (to float rounding: 1e-3 of the value range here,
+/// while a wrap to the start of a cycle is off by the whole range); just before it the value must be
+/// close to the end of the last cycle.
+fn nondyadic_end(acc: &mut Acc) {
+    for &cycle in &[0.1f32, 0.3, 0.7, 1.1, 0.15, 0.45, 2.3] {
+        for &delay in &[0.0f32, 0.1, 0.7, 1.3] {
+            for &n in &[1u32, 2, 3, 6, 9, 20] {
+                for reverse in [false, true] {
+                    let spec = TlSpec {
+                        kfs: vec![Kf { pos: 0.0, a: Some(0.0), k: Some(0), d: None, easing: None }, Kf { pos: 1.0, a: Some(100.0), k: Some(1000), d: None, easing: None }],
+                        default_easing: 0,
+                        timing: Timing::new(cycle, delay, Rep::Times(n), reverse),
+                    };
+                    let tl = spec.build();
+                    acc.timelines += 1;
+                    let total = tl.duration();
+                    let (ta, tk) = if reverse { (0.0f32, 0i32) } else { (100.0, 1000) };
+                    let init = P::sentinel();
+                    for k in 0..=8 {
+                        let t = step_ulps(total, k);
+                        let got = eval_real(&tl, t, &init);
+                        acc.evals += 1;
+                        acc.exact_checks += 1;
+                        if (got.a - ta).abs() > 0.1 || (got.k - tk).abs() > 1 {
+                            acc.sink.add("non-dyadic:not-terminal-at-or-after-total", (k as u64) << 32 | (n as u64), || {
+                                (format!("cycle {cycle} delay {delay} Times({n}) reverse {reverse}: duration() = {total}, update(t = duration() + {k} ulp = {t}) gives a = {}, k = {} but the terminal values are {ta}, {tk}", got.a, got.k), case_json(&spec, None, t, &init))
+                            });
+                        }
+                    }
+                }
+            }
+        }
+    }
+}
+
 pub fn run(run: Run) -> ! {
     let nmax = if run.is_thorough() { 5 } else { 4 };
     let thetas = theta_plus();
@@ -178,13 +216,15 @@ pub fn run(run: Run) -> ! {
             }
         },
     );
+    let mut acc = acc;
+    nondyadic_end(&mut acc);
     let mut cov = Map::new();
     cov.insert("states".into(), json!(acc.timelines));
     cov.insert("transitions".into(), json!(acc.evals));
     cov.insert("traces_validated_against_impl".into(), json!(acc.evals));
     cov.insert("evaluations".into(), json!(acc.evals));
     cov.insert("distinct_nontrivial".into(), json!(acc.exact_checks));
-    cov.insert("rule".into(), json!(format!("keyframe lists of size 0..={nmax} with per-property distinct positions (same alphabet as C01, incl. the variant with the f64 property d in place of a below the largest size) x 13 dyadic timing configurations (incl. Times 0/1/2/3, Infinite, reverse) x {{no start, start_with(v*)}} x exact-hit times delay+cycle*(c+p) / reversing delay+cycle*(c+p/2), delay+cycle*(c+1-p/2) for all grid positions p and cycles c<=3, t in {{0,delay/2,delay}}, every forward-pass end, and 6 after-end times (next f32 after total .. f32::MAX); every timeline is additionally evaluated wrapped in MergedTimeline::from (bit-equal); non-trivial = (evaluation, property) whose position coincides with exactly one keyframe of that property, compared exactly (int) / within 4 ulp (float)")));
+    cov.insert("rule".into(), json!(format!("keyframe lists of size 0..={nmax} with per-property distinct positions (same alphabet as C01, incl. the variant with the f64 property d in place of a below the largest size) x 13 dyadic timing configurations (incl. Times 0/1/2/3, Infinite, reverse) x {{no start, start_with(v*)}} x exact-hit times delay+cycle*(c+p) / reversing delay+cycle*(c+p/2), delay+cycle*(c+1-p/2) for all grid positions p and cycles c<=3, t in {{0,delay/2,delay}}, every forward-pass end, and 6 after-end times (next f32 after total .. f32::MAX); every timeline is additionally evaluated wrapped in MergedTimeline::from (bit-equal); a non-dyadic companion evaluates 336 repeating timelines (cycles 0.1..2.3, delays 0..1.3, Times 1..20, reverse) at exactly the reported duration() and the 8 f32 values after it: the terminal value must be shown; non-trivial = (evaluation, property) whose position coincides with exactly one keyframe of that property, compared exactly (int) / within 4 ulp (float)")));
     cov.insert("exhaustive".into(), json!(true));
     cov.insert("max_keyframes".into(), json!(nmax));
     cov.insert("after_end_constancy_groups".into(), json!(acc.after_end_groups));
